@@ -164,6 +164,22 @@ def t_array_vs_scalar():
         assert lt == [False, False]
 
 
+def t_sqrt_order():
+    a, b = sym_int('a'), sym_int('b')
+    arr = np.empty(2, dtype=object)
+    arr[0], arr[1] = a*a+1, b*b
+
+    def f():
+        return int(np.argmin(np.sqrt(arr)))
+    ex = explore(f, pre=[a.e >= 0, b.e >= 0, a.e <= 5, b.e <= 5])
+    assert ex.complete and len(ex.paths) == 2, ex.status
+    for p in ex.paths:
+        s = z3.Solver()
+        s.add(p.cond(), a.e >= 0, b.e >= 0)
+        s.add(z3.Not((b.e*b.e < a.e*a.e+1) == z3.BoolVal(p.value == 1)))
+        assert str(s.check()) == 'unsat'
+
+
 def main():
     n = 0
     for name, f in sorted(globals().items()):
